@@ -20,7 +20,7 @@ Definition enc_kind (k : skind) : nat :=
 Definition enc_site (k : skind) : nat := 2 * enc_kind k + site_blocks k.
 
 Definition obs_pipe (p : pipe) : list nat :=
-  let o := eval p in
+  let o := run p in
   [encb (wf p); allocs_pipeline p; steps p; calls o; enc_res (st o)] ++ map enc_site (sites o).
 
 Definition range (n : nat) : list nat := seq 0 (S n).
